@@ -12,6 +12,7 @@ static inline std::vector<Str> resolve_bases(bool with_relative) {
         Str s = Str("s:") + (a ? a : "") + pp + (q ? q : "");
         if (ref::is_uri_reference(s) && seen.insert(s).second) v.push_back(s);
     }
+    for (auto s : { "sx://h/a/b", "sx:/a", "sx:a/b?bq", "S://h/a/b" }) v.push_back(s);   // a base whose scheme extends / differs in case from the references' "s"
     if (with_relative) for (auto s : { "", "/a", "//h/a", "a" }) v.push_back(s);
     return v;
 }
@@ -19,7 +20,7 @@ static inline std::vector<Str> dot_tokens() { return { "", ".", "..", "a", "b", 
 
 // references: scheme x authority x path-token sequences (<= n) x query x fragment
 static inline std::vector<Str> resolve_refs(int n, bool rich = true) {
-    std::vector<const char *> scheme = { 0, "s:", "S:", "t:" }, auth = { 0, "//g", "//", "//@" }, query = { 0, "?", "?q" }, frag = { 0, "#", "#f" };
+    std::vector<const char *> scheme = { 0, "s:", "S:", "t:", "sx:" /* the base scheme "s" is a proper prefix of it */ }, auth = { 0, "//g", "//", "//@" }, query = { 0, "?", "?q" }, frag = { 0, "#", "#f" };
     if (!rich) { scheme = { 0, "s:" }; auth = { 0, "//h" }; query = { 0, "?q" }; frag = { 0, "#f" }; }
     std::vector<Str> paths = path_token_paths(dot_tokens(), n, 0), ap = path_token_paths(dot_tokens(), n, 1);
     paths.insert(paths.end(), ap.begin(), ap.end());
@@ -31,5 +32,9 @@ static inline std::vector<Str> resolve_refs(int n, bool rich = true) {
         if (!ref::is_uri_reference(head)) continue;
         for (auto q : query) for (auto f : frag) { Str s = head + (q ? q : "") + (f ? f : ""); if (seen.insert(s).second) v.push_back(s); }
     }
+    // deeper paths over a reduced alphabet (runs of empty segments behind dot segments need four and more tokens), bare and with an own scheme
+    std::vector<Str> deep = path_token_paths({ "", ".", "..", "b" }, n + 2, 0), deep_abs = path_token_paths({ "", ".", "..", "b" }, n + 2, 1);
+    deep.insert(deep.end(), deep_abs.begin(), deep_abs.end());
+    for (auto &p : deep) for (auto sc : { "", "t:" }) { if (!*sc && p.compare(0, 2, "//") == 0) continue; Str s = Str(sc) + p; if (p.compare(0, 2, "//") == 0) continue; if (ref::is_uri_reference(s) && seen.insert(s).second) v.push_back(s); }
     return v;
 }
